@@ -79,6 +79,10 @@ type Op struct {
 	OrderSeed uint64    `json:"order_seed,omitempty"`
 	Fault     *Fault    `json:"fault,omitempty"`
 	Role      string    `json:"role,omitempty"` // prefix | victim | suffix | intruder ... (informational)
+	// NoHash: leave the content hash of the reported schemata out of the outcome. Set for long-lived validators whose
+	// schema contains $ref: the library expands references in place, lazily, by design (outside C08; see C12), so
+	// the schema a long-lived validator reports legitimately changes as more of it gets expanded.
+	NoHash bool `json:"no_hash,omitempty"`
 }
 
 func (o *Op) brief() string {
@@ -289,23 +293,27 @@ type LLValidator struct {
 }
 
 func resultOutcome(r *validate.Result, withSchemata bool) Outcome {
+	return resultOutcomeH(r, withSchemata, true)
+}
+
+func resultOutcomeH(r *validate.Result, withSchemata, withHash bool) Outcome {
 	if r == nil {
 		return Outcome{Nil: true, Valid: true}
 	}
 	o := Outcome{Valid: r.IsValid(), Errors: msgs(r.Errors), Warnings: msgs(r.Warnings), Match: r.MatchCount}
 	if withSchemata {
-		o.Extra = schemataDigest(r)
+		o.Extra = schemataDigest(r, withHash)
 	}
 	return o
 }
 
-func schemataDigest(r *validate.Result) string {
+func schemataDigest(r *validate.Result, withHash bool) string {
 	root := r.RootObjectSchemata()
 	var b strings.Builder
 	fmt.Fprintf(&b, "root=%d", len(root))
 	h := uint64(14695981039346656037)
 	for _, s := range root {
-		if s == nil {
+		if s == nil || !withHash {
 			continue
 		}
 		if bb, err := json.Marshal(s); err == nil {
@@ -423,8 +431,8 @@ func (env *Env) exec(op *Op) Outcome {
 			opts = append(opts, validate.WithRecycleValidators(true))
 		}
 		r := validate.NewSchemaValidator(s, nil, op.Path, op.registry(env), opts...).Validate(d)
-		env.retain(op, func() string { return resultOutcome(r, true).Key() })
-		return resultOutcome(r, true)
+		env.retain(op, func() string { return resultOutcomeH(r, true, !op.NoHash).Key() })
+		return resultOutcomeH(r, true, !op.NoHash)
 	case KParam:
 		p := new(spec.Parameter)
 		must(0, json.Unmarshal([]byte(op.Schema), p))
@@ -501,8 +509,9 @@ func (env *Env) exec(op *Op) Outcome {
 		ll := env.LL[op.LL]
 		d := must(decodeJSON(op.Data, op.UseNumber))
 		r := ll.sv.Validate(d)
-		env.retain(op, func() string { return resultOutcome(r, true).Key() })
-		return resultOutcome(r, true)
+		withHash := !strings.Contains(ll.Schema, "$ref")
+		env.retain(op, func() string { return resultOutcomeH(r, true, withHash).Key() })
+		return resultOutcomeH(r, true, withHash)
 	case KLLParam:
 		ll := env.LL[op.LL]
 		v := must(op.TVal.Value())
